@@ -126,6 +126,24 @@ func (g *RegexGen) atom(d int) string {
 	case 11:
 		// escapes whose removal would change how the surrounding text is tokenised
 		return g.pick("escctx", `x{1\,2}`, `x{1\,}`, `[[\:alpha\:]]`, `[\:x\:]`, `a\{1\,2\}`, `x{2\,3}y`, `[[\=a\=]]`, `[a\-z]`, `[\^a]`, `(\?:a)`, `a\{2}`, `x{\,1}`, `[[\:digit\:]]+`, `\<a\>`, `(?\:a)`)
+	case 13:
+		// literal braces next to text that rewrites drop, unwrap or merge: a literal `{` must not
+		// become a repetition operator, digits must not join an octal escape, counts have limits
+		n := rapid.IntRange(1, 3).Draw(g.T, "nbrace")
+		var sb strings.Builder
+		for i := 0; i < n; i++ {
+			sb.WriteString(g.pick("bracepre", "a", "x", "", "b"))
+			sb.WriteString(g.pick("brace", "{[1]}", "{[2],[3]}", "{1[,]2}", "{[1],}", "{{1}2}", "{b{0}2}", "{1,{1}2}", "{1b{0},2}", "{1{1}}", "{[1-1]}", "{11{0},}", "{,[1]}", "{[a]}", "{}",
+				"{{1}0,}", "{1,2{1}}", "{[12]{1}}", "{\\d{0}3}", "{(?:b){0}2,}", "{00}", "{01}b{1}", "{1,02}[c]", "}{00}{0}"))
+			sb.WriteString(g.pick("bracepost", "", "", "b", "*", "[z]", "{1}"))
+		}
+		if rapid.IntRange(0, 3).Draw(g.T, "octal") == 0 {
+			sb.WriteString(g.pick("octal", "\\0{1}2", "\\0[1]", "\\01{1}2", "\\0a{0}1", "\\012{1}3", "\\1[2]", "\\x41{1}1"))
+		}
+		if rapid.IntRange(0, 5).Draw(g.T, "bigrep") == 0 {
+			sb.WriteString(g.pick("bigrep", "(222222){200}", "(?:aaaa){500}", "(?:aaa){2}{200}", "(xx){1000}", "(?:bbbbbb){100,180}"))
+		}
+		return sb.String()
 	case 10:
 		// run of equal atoms
 		a := g.pick("runatom", "a", "x", " ", `\d`, "[a-z]", ".", "-", "0")
